@@ -26,6 +26,15 @@ Definition quiet_entry (sc : scripts) (g : gid) (e : entry) : bool :=
   | Some (acts, _) => negb (existsb (targets g) acts)
   | None => true
   end.
+(* no body that ran in this log raised *)
+Definition raises (sc : scripts) (e : entry) : bool :=
+  match nth_error (script_of sc (fst (fst e))) (Z.to_nat (snd (fst e))) with
+  | Some (_, RRaise _) => true
+  | _ => false
+  end.
+Definition calm (sc : scripts) (log : list entry) : bool :=
+  forallb (fun e => negb (raises sc e)) log.
+
 Definition quiet (sc : scripts) (g : gid) (tr : trace) : bool :=
   forallb (fun x => match x with
                     | (Start h, _) | (Kill h, _) => negb (h =? g)
@@ -49,7 +58,7 @@ Proof.
 Qed.
 Lemma ran_sp_result t g res : t_ran (sp_result t g res) = g :: t_ran t.
 Proof.
-  destruct res as [y|v]; cbn [sp_result]; [|reflexivity].
+  destruct res as [y|v|k]; cbn [sp_result]; [|reflexivity|reflexivity].
   destruct (is_pos y); [destruct (is_act t g)|]; reflexivity.
 Qed.
 
@@ -115,28 +124,33 @@ Qed.
 
 Lemma st_sp_result_other t h res g :
   g <> h -> alookup g (t_st (sp_result t h res)) = alookup g (t_st t) /\
-            t_due (sp_result t h res) = t_due t.
+            (match res with RRaise _ => False | _ => True end ->
+             t_due (sp_result t h res) = t_due t).
 Proof.
-  intros N. destruct res as [y|v]; cbn [sp_result].
+  intros N. destruct res as [y|v|k]; cbn [sp_result].
   - destruct (is_pos y); [destruct (is_act t h)|]; sproj; auto.
     now rewrite alookup_aset_neq.
   - sproj. now rewrite alookup_adel_neq.
+  - sproj. rewrite alookup_adel_neq by auto. split; [reflexivity|intros []].
 Qed.
 
 (* the body of another coroutine ran *)
 Lemma quiet_exec sc t h k outs g :
   g <> h -> quiet_entry sc g (h, k, outs) = true ->
   alookup g (t_st (sp_exec sc t (h, k, outs))) = alookup g (t_st t) /\
-  memz g (t_due (sp_exec sc t (h, k, outs))) = memz g (t_due t).
+  (raises sc (h, k, outs) = false ->
+   memz g (t_due (sp_exec sc t (h, k, outs))) = memz g (t_due t)).
 Proof.
-  intros N Hq. unfold quiet_entry in Hq. cbn [fst snd] in Hq.
+  intros N Hq. unfold quiet_entry, raises in *. cbn [fst snd] in *.
   destruct (nth_error (script_of sc h) (Z.to_nat k)) as [[acts res]|] eqn:Hn.
   - rewrite (sp_exec_unfold _ _ _ _ _ _ _ Hn). apply negb_true_iff in Hq.
     destruct (st_sp_result_other (sp_actions (exec_pre t h k outs acts) acts outs) h res g N)
       as [E1 E2].
-    rewrite E1, E2.
     destruct (quiet_actions g acts (exec_pre t h k outs acts) outs Hq) as [E3 E4].
-    rewrite E3, E4. unfold exec_pre. sproj. rewrite memz_remz. apply Z.eqb_neq in N. now rewrite N.
+    split.
+    + rewrite E1, E3. unfold exec_pre. sproj. reflexivity.
+    + intros Hr. rewrite E2 by (destruct res; auto; discriminate).
+      rewrite E4. unfold exec_pre. sproj. rewrite memz_remz. apply Z.eqb_neq in N. now rewrite N.
   - unfold sp_exec. cbv beta iota zeta. rewrite Hn. auto.
 Qed.
 
@@ -146,7 +160,8 @@ Lemma paused_not_run sc t h k outs :
 Proof.
   rewrite ok08_sp_exec. intros H. apply andb_true_iff in H. destruct H as [_ H].
   destruct (nth_error _ _); [|discriminate]. unfold chk08 in H.
-  apply andb_true_iff in H. destruct H as [H _]. apply andb_true_iff in H. tauto.
+  apply andb_true_iff in H. destruct H as [H _]. apply andb_true_iff in H. destruct H as [H _].
+  apply andb_true_iff in H. tauto.
 Qed.
 
 Lemma quiet_log sc g log : forall t,
@@ -170,15 +185,18 @@ Qed.
 
 (* an owed coroutine that is not in the log is still owed at the end *)
 Lemma owed_log sc g log : forall t,
-  forallb (quiet_entry sc g) log = true ->
+  forallb (quiet_entry sc g) log = true -> calm sc log = true ->
   memz g (t_due t) = true -> ~ In g (log_gids log) ->
   memz g (t_due (fold_left (sp_exec sc) log t)) = true.
 Proof.
-  induction log as [|[[h k] outs] log IH]; intros t Hq Hd Hn; cbn [fold_left log_gids map] in *; auto.
+  induction log as [|[[h k] outs] log IH]; intros t Hq Hc Hd Hn;
+    cbn [fold_left log_gids map] in *; auto.
   apply andb_true_iff in Hq. destruct Hq as [Hq1 Hq2]. cbn [fst] in Hn.
+  cbn [calm forallb] in Hc. apply andb_true_iff in Hc. destruct Hc as [Hc1 Hc2].
+  apply negb_true_iff in Hc1.
   assert (N : g <> h) by (intros <-; apply Hn; now left).
   destruct (quiet_exec sc t h k outs g N Hq1) as [_ E2].
-  apply IH; [exact Hq2|congruence|]. intros H. apply Hn. now right.
+  apply IH; [exact Hq2|exact Hc2|rewrite (E2 Hc1); exact Hd|]. intros H. apply Hn. now right.
 Qed.
 
 Lemma total_dt_nonneg tr : frames_only tr = true -> 0 <= total_dt tr.
@@ -229,16 +247,16 @@ Qed.
 
 Lemma last_frame sc g t dt log exc :
   alookup g (t_st (tick dt (flagwf (0 <=? dt) t))) = Some SAct ->
-  forallb (quiet_entry sc g) log = true ->
+  forallb (quiet_entry sc g) log = true -> calm sc log = true ->
   ok08 (sp_step sc t (Process dt) (ObsP log exc)) = true ->
   In g (log_gids log).
 Proof.
-  intros Hst Hq H8. cbn [sp_step] in H8. unfold frame_end in H8. sproj.
+  intros Hst Hq Hc H8. cbn [sp_step] in H8. unfold frame_end in H8. sproj.
   apply andb_true_iff in H8. destruct H8 as [_ H8].
   destruct (in_dec Z.eq_dec g (log_gids log)) as [i|n]; auto. exfalso.
   assert (Hd : memz g (t_due (tick dt (flagwf (0 <=? dt) t))) = true).
   { apply memz_In. unfold tick at 1. sproj. now apply act_keys_intro. }
-  pose proof (owed_log sc g log _ Hq Hd n) as H.
+  pose proof (owed_log sc g log _ Hq Hc Hd n) as H.
   destruct (t_due (fold_left (sp_exec sc) log (tick dt (flagwf (0 <=? dt) t)))); discriminate.
 Qed.
 
@@ -246,11 +264,12 @@ Theorem never_later :
   forall sc g frames t r dt log exc,
     alookup g (t_st t) = Some (SPaused r) ->
     frames_only frames = true -> quiet sc g (frames ++ [(Process dt, ObsP log exc)]) = true ->
+    calm sc log = true ->
     total_dt frames < r -> r <= total_dt frames + dt ->
     ok08 (sp_run sc t (frames ++ [(Process dt, ObsP log exc)])) = true ->
     In g (log_gids log).
 Proof.
-  intros sc g frames t r dt log exc Hst Hf Hq Ht Hr H8.
+  intros sc g frames t r dt log exc Hst Hf Hq Hc Ht Hr H8.
   unfold quiet in Hq. rewrite forallb_app in Hq. apply andb_true_iff in Hq.
   destruct Hq as [Hq1 Hq2]. cbn [forallb] in Hq2. rewrite andb_true_r in Hq2.
   rewrite sp_run_app in H8. cbn [sp_run] in H8.
@@ -275,6 +294,7 @@ Proof.
       now rewrite ran_sp_result, ran_sp_actions. }
     destruct (nth_error (script_of sc h) (Z.to_nat k)); [|discriminate].
     unfold chk08 in H8'. apply andb_true_iff in H8'. destruct H8' as [H8' _].
+    apply andb_true_iff in H8'. destruct H8' as [H8' _].
     apply andb_true_iff in H8'. destruct H8' as [_ Hnr]. apply negb_true_iff, memz_false in Hnr.
     rewrite Eran in Hr. split.
     + constructor; auto. intros H. apply (Hr h H). now left.
@@ -284,11 +304,11 @@ Qed.
 Theorem one_step_per_frame :
   forall sc g t dt log exc,
     alookup g (t_st t) = Some SAct ->
-    quiet sc g [(Process dt, ObsP log exc)] = true ->
+    quiet sc g [(Process dt, ObsP log exc)] = true -> calm sc log = true ->
     ok08 (sp_step sc t (Process dt) (ObsP log exc)) = true ->
     In g (log_gids log) /\ NoDup (log_gids log).
 Proof.
-  intros sc g t dt log exc Hst Hq H8. cbn [quiet forallb] in Hq. rewrite andb_true_r in Hq. split.
+  intros sc g t dt log exc Hst Hq Hc H8. cbn [quiet forallb] in Hq. rewrite andb_true_r in Hq. split.
   - apply (last_frame sc g t dt log exc); auto.
     unfold tick. sproj. now rewrite alookup_tick, Hst.
   - cbn [sp_step] in H8. unfold frame_end in H8. sproj.
